@@ -111,14 +111,22 @@ def doEvent (r : RState) (t : Nat) (ws : List String) : Except String RState :=
       if r.s.own i ≠ .held t then throw s!"client contract: thread {t} unlocks accessor {i} it does not hold in the model"
       if r.s.lt i = 0 then throw s!"client contract: unlock of slot {i} without lock"
       pure { r with s := callUnlock r.s t i }
-  | ["call", "release", i] | ["call", "tlsexit", i] =>
+  | ["call", "release", i] =>
     match i.toNat? with
     | none => .error "bad index"
     | some i => do
       idleCheck r t "call release"
+      if r.c.tls then throw "Accessor::release in a thread-local style run"
       if r.s.own i ≠ .held t then throw s!"client contract: thread {t} releases accessor {i} it does not hold in the model"
-      if r.s.lt i ≠ 0 then throw s!"client contract: release of slot {i} with an open region"
-      match stepThread r.c r.o (callRelease r.s t i) t 0 with
+      pure { r with s := callRelease r.s t i }
+  | ["call", "tlsexit", i] =>
+    match i.toNat? with
+    | none => .error "bad index"
+    | some i => do
+      idleCheck r t "thread exit"
+      if r.s.own i ≠ .held t then throw s!"client contract: thread {t} returns thread id {i} it does not hold in the model"
+      if r.s.lt i ≠ 0 then throw s!"client contract: thread exit inside a region of slot {i}"
+      match stepThread r.c r.o (callReleaseT r.s t i) t 0 with
       | some (s2, _) => pure { r with s := s2 }
       | none => throw "model cannot push the id"
   | ["ret", "lock"] => retCheck r t "lock" none
@@ -197,7 +205,12 @@ def stepObs (r0 : RState) (ob : Obs) : Except String RState := do
             let ptrs := match a, l with
               | .cas "tbl" 0 _ _ _ _ d true _, .cas _ _ _ _ _ _ d' _ _ => (d, d') :: r.ptrs
               | _, _ => r.ptrs
-            .ok { r with s := s', ptrs := ptrs }
+            -- `deallocate` is invisible in the trace (C14's business): perform it as soon as the
+            -- model thread reaches it, so that the id is free in the model no later than in reality
+            let s'' := match s'.pc t with
+              | .rl2 _ => (match stepThread r.c r.o s' t 0 with | some (s2, _) => s2 | none => s')
+              | _ => s'
+            .ok { r with s := s'', ptrs := ptrs }
           else .error s!"model expects {reprStr l}, implementation did {reprStr a'}"
 
 def finalR (_r : RState) : Except String Unit := .ok ()
